@@ -533,6 +533,45 @@ pub fn run(tier: Tier) -> Run {
     bufs.extend(buffers(&[0x00, 0xEF, 0xBB, 0xBF, 0x61], tier.pick(5, 6)).into_iter().filter(|b| b.windows(3).any(|w| w == [0xEF, 0xBB, 0xBF])));
     // bytes on which word-at-a-time zero-byte tricks misfire: 0x01 next to a NUL, 0x80 / 0x81
     bufs.extend(buffers(&[0x00, 0x01, 0x80, 0x81], tier.pick(5, 6)).into_iter().filter(|b| b.iter().any(|&x| x != 0) && b.len() >= 2));
+    // the UTF-8 zoo: every class of ill-formed sequence (overlong forms, surrogates, CESU-8 pairs, beyond U+10FFFF, lone
+    // continuation bytes, truncated sequences, the bytes FE / FF), and well-formed neighbours (U+FFFD itself, non-characters,
+    // the last / first code point of each length), each as the whole string, inside ASCII, and followed by a second string
+    {
+        let zoo: Vec<&[u8]> = vec![
+            &[0xC0, 0x80], &[0xC1, 0xBF], &[0xE0, 0x80, 0x80], &[0xE0, 0x9F, 0xBF], &[0xF0, 0x80, 0x80, 0x80], &[0xF0, 0x8F, 0xBF, 0xBF],
+            &[0xED, 0xA0, 0x80], &[0xED, 0xBF, 0xBF], &[0xED, 0xA0, 0x80, 0xED, 0xB0, 0x80], &[0xED, 0xAF, 0xBF, 0xED, 0xBF, 0xBF], &[0xED, 0xA0, 0xBD, 0xED, 0xB8, 0x80],
+            &[0xF4, 0x90, 0x80, 0x80], &[0xF5, 0x80, 0x80, 0x80], &[0xF8, 0x88, 0x80, 0x80, 0x80], &[0xFC, 0x84, 0x80, 0x80, 0x80, 0x80], &[0xFE], &[0xFF], &[0xFE, 0xFF], &[0xFF, 0xFE],
+            &[0x80], &[0xBF], &[0x80, 0x80], &[0xC3], &[0xE2, 0x82], &[0xF0, 0x9F, 0x98], &[0xC3, 0x28], &[0xE2, 0x28, 0xA1], &[0xE2, 0x82, 0x28], &[0xF0, 0x28, 0x8C, 0xBC], &[0xF0, 0x90, 0x28, 0xBC], &[0xF0, 0x28, 0x8C, 0x28],
+            &[0xEF, 0xBF, 0xBD], &[0xEF, 0xBF, 0xBE], &[0xEF, 0xBF, 0xBF], &[0xEF, 0xB7, 0x90], &[0x7F], &[0xC2, 0x80], &[0xDF, 0xBF], &[0xE0, 0xA0, 0x80], &[0xED, 0x9F, 0xBF], &[0xEE, 0x80, 0x80], &[0xF0, 0x90, 0x80, 0x80], &[0xF4, 0x8F, 0xBF, 0xBF],
+        ];
+        for z in zoo {
+            for (pre, post) in [(&b""[..], &b""[..]), (&b"a"[..], &b"b"[..]), (&b"abc"[..], &b""[..]), (&b""[..], &b"abcd"[..])] {
+                let mut b: Vec<u8> = pre.to_vec();
+                b.extend_from_slice(z);
+                b.extend_from_slice(post);
+                b.push(0);
+                while b.len() % 4 != 0 {
+                    b.push(0);
+                }
+                b.extend_from_slice(b"ok\0\0");
+                bufs.push(b);
+            }
+        }
+    }
+    // the same string twice (8 words + terminator each), then a word: a string is decoded from the bytes at the offset under
+    // the limit in force now, whatever was decoded before
+    for unit in [&b"0123456789abcdef0123456789abcde"[..], &b"0123456789abcdef0123456789abcdefXYZ"[..], "0123456789abcdef01234567é9abcde".as_bytes()] {
+        let mut one: Vec<u8> = unit.to_vec();
+        one.push(0);
+        while one.len() % 4 != 0 {
+            one.push(0);
+        }
+        let mut b = one.clone();
+        b.extend_from_slice(&one);
+        b.extend_from_slice(&one);
+        b.extend_from_slice(&[9, 0, 0, 0]);
+        bufs.push(b);
+    }
     bufs.push(b"ok\0".to_vec());
     bufs.push(b"ok\0\0".to_vec());
     bufs.push(b"abcd\0\0\0\0".to_vec());
